@@ -543,5 +543,63 @@ func genC15(repo string) (string, error) {
 		fmt.Fprintf(&sb, "def fixedOffset%sConds : List String := %s\n", fn[1], LeanStrList(conds))
 	}
 	fmt.Fprintf(&sb, "def fixedOffsetWriteCalls : List String := %s\n", LeanStrList(CallSeq(FindFunc(of, "FixedOffsetEncoder", "Write"))))
+
+	// ---- reader.go: the checks of newMMapStoreReader / initialize (every top-level `if`, source
+	// order) and every slice expression of initialize (Model: Reader.openE, footerPos)
+	topIfs := func(fn *ast.FuncDecl) []string {
+		var cs []string
+		for _, st := range fn.Body.List {
+			if is, ok := st.(*ast.IfStmt); ok {
+				hd := c15render(rfset, is.Cond)
+				if is.Init != nil {
+					hd = c15render(rfset, is.Init) + "; " + hd
+				}
+				cs = append(cs, hd)
+			}
+		}
+		return cs
+	}
+	newReader := FindFunc(rf, "", "newMMapStoreReader")
+	if newReader == nil {
+		return "", fmt.Errorf("newMMapStoreReader not found")
+	}
+	fmt.Fprintf(&sb, "\n/-- the top-level checks of newMMapStoreReader, then of initialize -/\ndef readerOpenChecks : List String := %s\n",
+		LeanStrList(append(topIfs(newReader), topIfs(initFn)...)))
+	var slices []string
+	ast.Inspect(initFn.Body, func(n ast.Node) bool {
+		if se, ok := n.(*ast.SliceExpr); ok {
+			slices = append(slices, c15render(rfset, se))
+		}
+		return true
+	})
+	fmt.Fprintf(&sb, "def readerInitSlices : List String := %s\n", LeanStrList(slices))
+
+	// ---- cache.go: the reader cache (Model/TableLRU.lean), statement for statement
+	cfset, cachef, err := ParseFile(repo, "kv/table/cache.go")
+	if err != nil {
+		return "", err
+	}
+	for _, fn := range [][3]string{
+		{"storeCache", "GetReader", "cacheGetReaderStmts"}, {"storeCache", "ReleaseReaders", "cacheReleaseStmts"},
+		{"storeCache", "Evict", "cacheEvictStmts"}, {"storeCache", "Cleanup", "cacheCleanupStmts"},
+		{"storeCache", "evict", "cacheEvictEntryStmts"}, {"cacheEntry", "retain", "cacheRetainStmts"},
+		{"cacheEntry", "release", "cacheReleaseEntryStmts"}, {"LRUCache", "Add", "lruAddStmts"},
+		{"LRUCache", "Get", "lruGetStmts"}, {"LRUCache", "Remove", "lruRemoveStmts"},
+		{"LRUCache", "Walk", "lruWalkStmts"}, {"LRUCache", "removeElement", "lruRemoveElementStmts"},
+	} {
+		f := FindFunc(cachef, fn[0], fn[1])
+		if f == nil {
+			return "", fmt.Errorf("kv/table/cache.go: %s.%s not found", fn[0], fn[1])
+		}
+		var ss []string
+		for _, st := range f.Body.List {
+			s := c15render(cfset, st)
+			if strings.HasPrefix(s, "metrics.") { // counters: not modelled
+				continue
+			}
+			ss = append(ss, s)
+		}
+		fmt.Fprintf(&sb, "def %s : List String := %s\n", fn[2], LeanStrList(ss))
+	}
 	return sb.String(), nil
 }
